@@ -99,8 +99,9 @@ func ruleC20DisabledMeansNever(c *Ctx) {
 
 func init() {
 	register(&propSpec{
-		ID:    "C20",
-		Title: "Key caching avoids external calls, and only for one revoke-check interval",
+		ID:            "C20",
+		UsesCallGraph: true,
+		Title:         "Key caching avoids external calls, and only for one revoke-check interval",
 		Explanation: "Structural necessary conditions of C20: (hit-is-pure) in keyCache.GetOrLoad/GetOrLoadLatest every loader()/load() call sits on the stale-or-miss edge of getFresh or the invalid edge of IsInvalid, and nothing on the " +
 			"fresh path can reach a Metastore/KMS method; (external-only-via-cache) under closure-binding-sensitive reachability every path from Session.Encrypt/Decrypt to a Metastore or KeyManagementService method passes through a " +
 			"keyCacher implementation's GetOrLoad/GetOrLoadLatest; (factory-wide-sk-cache) every session's skCache is the one object in SessionFactory.systemKeys, assigned only by NewSessionFactory; (reload-once) load() invokes the " +
